@@ -615,7 +615,7 @@ impl C06 {
         let top = cx.rng.usize(n);
         let some_name = g.lib.structs[cx.rng.usize(n)].name.clone();
         let kinds = ["dangling-sref", "dangling-aref", "self-reference", "two-cycle", "zero-cols", "zero-rows", "negative-cols", "empty-boundary", "one-point-boundary", "open-boundary", "empty-path", "path-without-width",
-            "abs-mag", "abs-angle", "mag-2", "mag-half", "aref-mag-3"];
+            "abs-mag", "abs-angle", "mag-2", "mag-half", "aref-mag-3", "mag-just-above-one", "mag-just-below-one"];
         let kind = kinds[(cx.n as usize) % kinds.len()];
         let s = &mut g.lib.structs[top];
         let here = s.name.clone();
@@ -645,16 +645,23 @@ impl C06 {
             "open-boundary" => s.elems.push(GdsBoundary { layer: 1, datatype: 0, xy: vec![gpt((0, 0)), gpt((5, 0)), gpt((5, 5)), gpt((0, 5))], ..Default::default() }.into()),
             "empty-path" => s.elems.push(GdsPath { layer: 1, datatype: 0, xy: vec![], width: Some(2), ..Default::default() }.into()),
             "path-without-width" => s.elems.push(GdsPath { layer: 1, datatype: 0, xy: vec![gpt((0, 0)), gpt((9, 0))], width: None, ..Default::default() }.into()),
-            "abs-mag" | "abs-angle" | "mag-2" | "mag-half" | "aref-mag-3" => {
+            "abs-mag" | "abs-angle" | "mag-2" | "mag-half" | "aref-mag-3" | "mag-just-above-one" | "mag-just-below-one" => {
                 let st = match kind {
                     "abs-mag" => GdsStrans { abs_mag: true, ..Default::default() },
                     "abs-angle" => GdsStrans { abs_angle: true, angle: Some(90.0), ..Default::default() },
                     "mag-2" => GdsStrans { mag: Some(2.0), ..Default::default() },
                     "mag-half" => GdsStrans { mag: Some(0.5), reflected: true, ..Default::default() },
+                    // a magnification that is not 1 but close to it: with geometry ten million units from the origin it moves every
+                    // point by five units and more, so "close enough to 1" is not a reason to ignore it
+                    "mag-just-above-one" => GdsStrans { mag: Some(1.0000005), ..Default::default() },
+                    "mag-just-below-one" => GdsStrans { mag: Some(0.9999995), reflected: true, ..Default::default() },
                     _ => GdsStrans { mag: Some(3.0), ..Default::default() },
                 };
                 let mut leaf = GdsStruct::new("leafm");
                 leaf.elems.push(GdsBoundary { layer: 1, datatype: 0, xy: closed(&[(0, 0), (4, 0), (4, 4), (0, 4)]), ..Default::default() }.into());
+                if kind.starts_with("mag-just") {
+                    leaf.elems.push(GdsBoundary { layer: 1, datatype: 0, xy: closed(&[(10_000_000, 12_000_000), (20_000_000, 12_000_000), (20_000_000, 18_000_000), (10_000_000, 18_000_000)]), ..Default::default() }.into());
+                }
                 g.lib.structs.insert(0, leaf);
                 let top = &mut g.lib.structs[top + 1];
                 if kind == "aref-mag-3" {
